@@ -426,6 +426,14 @@ func (w *World) freshOperand(v ssa.Value, depth int) (bool, string) {
 	if depth > 5 {
 		return false, "too deep"
 	}
+	// a package-level map / slice / pointer handed to the new object is shared by
+	// every object ever produced (the exemption below is for the CALLER's maps)
+	if g := loadsPackageVar(v, 0); g != nil {
+		switch v.Type().Underlying().(type) {
+		case *types.Map, *types.Slice, *types.Pointer, *types.Chan:
+			return false, "the package variable " + g.Name() + ": every object produced shares it (a registration or write through one holder's object is seen by all the others)"
+		}
+	}
 	if !carriesRefs(v.Type(), 0) {
 		return true, ""
 	}
@@ -495,4 +503,28 @@ func describeAddr(a ssa.Value) string {
 		return describeAddr(x.X)
 	}
 	return a.Name()
+}
+
+// loadsPackageVar: v is (on some incoming edge) the value of a package-level variable.
+func loadsPackageVar(v ssa.Value, d int) *ssa.Global {
+	if d > 4 {
+		return nil
+	}
+	switch x := v.(type) {
+	case *ssa.UnOp:
+		if x.Op == token.MUL {
+			if g, ok := x.X.(*ssa.Global); ok {
+				return g
+			}
+		}
+	case *ssa.Phi:
+		for _, e := range x.Edges {
+			if g := loadsPackageVar(e, d+1); g != nil {
+				return g
+			}
+		}
+	case *ssa.ChangeType:
+		return loadsPackageVar(x.X, d+1)
+	}
+	return nil
 }
